@@ -50,6 +50,8 @@ def fault_snippets(w):
         'label-is-const': (['zz_c = 1', 'zz_c:'], 'end', ['zz_c']),
         'unknown-label': ([';zz_unknown_label'], 'end', ['zz_unknown_label']),
         'bad-label-swap': (['def zz_m p {', 'p:', ';', '}', 'zz_m 5'], 'end', ['label swap', 'zz_m']),
+        'bad-label-swap:expression': (['def zz_m p {', 'p:', ';p', '}', 'zz_x:', 'zz_m zz_x + 1'], 'end', ['label swap', 'zz_m']),
+        'bad-label-swap:expression-of-parameter': (['def zz_m p {', 'p:', ';p', '}', 'def zz_o q {', 'zz_m q * 2', '}', 'zz_x:', 'zz_o zz_x'], 'end', ['label swap', 'zz_m']),
         'segment-in-macro': (['def zz_m {', 'segment 0x1000', '}'], 'end', ['inside a macro', 'zz_m']),
         'reserve-in-macro': (['def zz_m {', 'reserve 2*w', '}'], 'end', ['inside a macro', 'zz_m']),
         'segment-misaligned': (['segment 7'], 'end', ['aligned']),
